@@ -433,7 +433,7 @@ func numfStream(r *Run) {
 		}
 	}
 	// other Go representations of the divisor / operand (D14), zero of every kind
-	for _, x := range []*V{VInt(0, 7), VFlt(1, 7.5), VInt(0, -7), VStr("7")} {
+	for _, x := range []*V{VInt(0, 7), VFlt(1, 7.5), VInt(0, -7), VStr("7"), VInt(5, 7), VInt(9, 7), VInt(6, 7), VFlt(0, 7.5), VStr("7.5")} {
 		for k := 0; k < 10; k++ {
 			for _, n := range []int64{0, 1, 2, 3} {
 				emit(x, numStep{"divided_by", VInt(k, n)})
@@ -446,6 +446,25 @@ func numfStream(r *Run) {
 		emit(x, numStep{"divided_by", VFlt(0, 0)}, numStep{"plus", VInt(0, 1)})
 		emit(x, numStep{"divided_by", VFlt(0, 0.5)})
 		emit(x, numStep{"modulo", VFlt(0, 0)})
+	}
+	// round on every kind of place count and on the receivers where x + 0.5 is rounded; negative halves (half up,
+	// toward +Inf); ceil / floor at and beyond the int64 range; overflow of + - * / to +-Inf (outside the model)
+	for _, f := range []float64{-2.5, -3.5, -0.5, -0.4, 2.5, 0.49999999999999994, 0.5, 0.49999999999999989, 4503599627370497, 4503599627370495.5,
+		4503599627370495, -4503599627370496, 1.9999999999999998, 3.9999999999999996, -1.9999999999999998, 1234.5678, -1234.5678, 1.005, 0.1} {
+		emit(VFlt(1, f), numStep{"round", nil})
+		for _, p := range []int64{-324, -323, -30, -5, -4, -2, -1, 0, 1, 2, 17, 20, 22, 23, 30, 300, 308, 309, 400} {
+			emit(VFlt(1, f), numStep{"round", VInt(0, p)})
+		}
+	}
+	for _, f := range []float64{1e19, -1e19, 9223372036854775808, 9223372036854774784, -9223372036854775808, -9223372036854777856, math.MaxFloat64, -math.MaxFloat64, 1e300} {
+		emit(VFlt(1, f), numStep{"ceil", nil})
+		emit(VFlt(1, f), numStep{"floor", nil})
+		emit(VFlt(1, f), numStep{"times", VFlt(1, 1e300)})
+		emit(VFlt(1, f), numStep{"times", VInt(0, 2)})
+		emit(VFlt(1, f), numStep{"plus", VFlt(1, f)})
+		emit(VFlt(1, f), numStep{"minus", VFlt(1, -f)})
+		emit(VFlt(1, f), numStep{"divided_by", VFlt(1, 5e-324)})
+		emit(VFlt(1, f), numStep{"divided_by", VFlt(1, 1e-300)})
 	}
 	// printing of whole results around the exponent thresholds of fmt (D23)
 	for _, n := range []int64{99999, 100000, 999999, 1000000, 1234567, 20000000, 123456789, 1e15, 1 << 53} {
